@@ -107,7 +107,8 @@ class ByteArray(SimpleModel):
 
     @classmethod
     def to_base64(cls, value):
-        if isinstance(value, (list, tuple)) and isinstance(value[0], mmap):
+        if isinstance(value, (list, tuple)) and len(value) > 0 \
+                                               and isinstance(value[0], mmap):
             # TODO: be smarter about this
             return b64encode(value[0])
 
